@@ -1,13 +1,18 @@
 package a
 
 import (
+	"bufio"
 	"encoding/json"
 	"fmt"
+	"io"
 	"os"
+	"time"
+
+	"verif/findings"
 )
 
-// Replay re-runs the single recorded case of a replay file in this process (a crash is
-// then visible as this process' own panic).
+// Replay re-runs the single recorded case of a replay file in this process, without the
+// worker pool (a crash is then visible as this process' own panic).
 func Replay(p *Prop, tier, path string) int {
 	b, err := os.ReadFile(path)
 	if err != nil {
@@ -15,29 +20,28 @@ func Replay(p *Prop, tier, path string) int {
 		return 2
 	}
 	var rf struct {
-		Signature string          `json:"signature"`
-		Job       string          `json:"job"`
-		Case      json.RawMessage `json:"case"`
+		Signature string      `json:"signature"`
+		Job       string      `json:"job"`
+		Case      interface{} `json:"case"`
 	}
 	if err := json.Unmarshal(b, &rf); err != nil {
 		fmt.Println("ERROR harness:", err)
 		return 2
 	}
-	if p.ReplayCase == nil {
-		fmt.Println("ERROR harness: property has no replay function")
+	target, _ := json.Marshal(rf.Case)
+	fs, _ := findings.Load()
+	em := &Emitter{w: bufio.NewWriter(io.Discard), job: rf.Job, seen: map[string]bool{}, deadline: time.Now().Add(time.Hour), fs: fs, prop: p.ID,
+		saturated: map[string]bool{}, replayTarget: string(target)}
+	p.RunJob(tier, rf.Job, 0, em)
+	if !em.replayHit {
+		fmt.Println("ERROR harness: the recorded case was not found in job", rf.Job)
 		return 2
 	}
-	sigs := p.ReplayCase(rf.Job, rf.Case)
-	fmt.Printf("recorded signature: %s\nreplayed signatures: %v\n", rf.Signature, sigs)
-	for _, s := range sigs {
-		if s == rf.Signature {
-			fmt.Printf("VIOLATION property=%s replay=%s\n", p.ID, path)
-			return 1
-		}
-	}
-	if len(sigs) > 0 {
+	fmt.Printf("job: %s\ncase: %s\nrecorded signature: %s\nreplayed signatures: %q\n", rf.Job, target, rf.Signature, em.replaySigs)
+	if len(em.replaySigs) > 0 {
 		fmt.Printf("VIOLATION property=%s replay=%s\n", p.ID, path)
 		return 1
 	}
+	fmt.Println("the case passes")
 	return 0
 }
